@@ -116,8 +116,7 @@ def check_times(ctx, fw, bw, verify, tag):
 
 
 # ---- spatial
-def real_merge_space(xf, xb, L, nt=2):
-    from dtscalibration.dts_accessor_utils import merge_double_ended
+def build_space(xf, xb, nt=2):
     t = (np.arange(nt) * 20 * S).astype("int64").astype("datetime64[ns]")
     tb = (np.arange(nt) * 20 * S + 10 * S).astype("int64").astype("datetime64[ns]")
     tagf = np.add.outer(np.arange(len(xf)) * 1000.0, np.arange(nt)) + 1
@@ -128,6 +127,12 @@ def real_merge_space(xf, xb, L, nt=2):
     dsb = xr.Dataset({"st": (("x", "time"), tagb), "ast": (("x", "time"), tagb + 0.25),
                       "userAcquisitionTimeFW": (("time",), np.full(nt, 9.0))},
                      coords={"x": np.array(xb), "time": tb}, attrs={"isDoubleEnded": "0"})
+    return dsf, dsb, tagf, tagb
+
+
+def merge_space_on(dsf, dsb, tagf, tagb, xf, L):
+    from dtscalibration.dts_accessor_utils import merge_double_ended
+    nt = tagf.shape[1]
     with warnings.catch_warnings():
         warnings.simplefilter("ignore")
         ds = merge_double_ended(dsf, dsb, cable_length=L, plot_result=False, verbose=False)
@@ -136,11 +141,38 @@ def real_merge_space(xf, xb, L, nt=2):
         i = int(round((ds.st.values[k, 0] - 1) / 1000))
         j = int(round((ds.rst.values[k, 0] - 5e5) / 1000))
         ja = int(round((ds.rast.values[k, 0] - 5e5 - 0.25) / 1000))
-        ok = (float(xf[i]) == float(x)) and all(ds.rst.values[k, m] == tagb[j, m] for m in range(nt)) and ja == j \
+        ok = 0 <= i < len(xf) and 0 <= j < tagb.shape[0] and (float(xf[i]) == float(x)) \
+            and all(ds.rst.values[k, m] == tagb[j, m] for m in range(nt)) and ja == j \
             and all(ds.st.values[k, m] == tagf[i, m] for m in range(nt))
         out.append([i, j if ok else -1])
     meta = dict(double=ds.attrs.get("isDoubleEnded"), acq_bw=ds["userAcquisitionTimeBW"].values.tolist())
     return out, meta
+
+
+def real_merge_space(xf, xb, L, nt=2):
+    dsf, dsb, tagf, tagb = build_space(xf, xb, nt)
+    return merge_space_on(dsf, dsb, tagf, tagb, xf, L)
+
+
+def check_space_again(ctx, xf, xb, L, L2, tag):
+    """a sequence of calls on the SAME channel datasets (merge, look at the result, merge again with a refined cable length):
+    every call has to satisfy the property, and the inputs have to come back unchanged"""
+    case = dict(op="space-again", xf=list(map(float, xf)), xb=list(map(float, xb)), L=float(L), L2=float(L2), tag=tag)
+    dsf, dsb, tagf, tagb = build_space(xf, xb)
+    try:
+        merge_space_on(dsf, dsb, tagf, tagb, xf, L)
+        placed2, _ = merge_space_on(dsf, dsb, tagf, tagb, xf, L2)
+    except Exception as e:  # noqa: BLE001
+        ctx.fail(f"repeated merge_double_ended raised {type(e).__name__}: {str(e)[:200]}", case)
+        return
+    if not (np.array_equal(dsb.x.values, np.array(xb)) and np.array_equal(dsf.x.values, np.array(xf))
+            and np.array_equal(dsb.st.values, tagb) and np.array_equal(dsf.st.values, tagf)):
+        ctx.fail("merge_double_ended modified the channel datasets it was given", case)
+    else:
+        bad = oracle_space(xf, xb, L2, placed2)
+        if bad:
+            ctx.fail("second merge of the same channel datasets (cable length refined): " + bad, case)
+    ctx.count("space: repeated call on the same datasets")
 
 
 def oracle_space(xf, xb, L, placed):
@@ -279,6 +311,8 @@ def part(ctx, k, nparts):
     for _ in range((150 if ctx.quick else 2000) // nparts):
         xf, xb, L = gen_space(rng)
         check_space(ctx, xf, xb, L, dict(kind="random"))
+        if rng.random() < 0.3:
+            check_space_again(ctx, xf, xb, L, L + rng.choice([-3, -1, 1, 2, 5]) * (xf[1] - xf[0]), dict(kind="random"))
     if k == 1:
         check_swapped(ctx)
 
